@@ -138,6 +138,13 @@ func c10Run(c *work.Ctx, pathOnly bool) {
 							fmt.Sprintf("under schedule %s goroutine %d (%s) got %s ; alone it gives %s", schedule, k, calls[ci].name, clip([]byte(got[k])), clip([]byte(cold[ci]))))
 					}
 				}
+				// generic pool invariant: nothing may have been put into a pool that already held it (two goroutines
+				// would be handed the same object); the failed calls of the prologue count as well
+				if n := json.VerifPoolDoublePuts(); n > 0 {
+					c.Violation(fmt.Sprintf("pool : an object was put into a pool twice : %s", map[bool]string{true: "during the failed calls before the goroutines or during " + sname, false: sname}[variant.prologue]), id+" schedule "+schedule, fmt.Sprintf("%d double puts", n))
+					stop = true
+					return
+				}
 				if work.RaceBuild {
 					for _, rc := range r.Races {
 						c.Violation(fmt.Sprintf("data race on the explored schedule : %s : %s", sname, rc), id+" schedule "+schedule, rc)
